@@ -18,6 +18,8 @@ func renderNative(v Value) interface{} {
 	switch x := v.(type) {
 	case string, int64, bool, float64:
 		return x
+	case U64:
+		return uint64(x)
 	case []byte:
 		return x
 	case nil:
@@ -207,6 +209,19 @@ func (in *Interp) native(fv *FuncV, args []Value, at token.Pos) []Value {
 			sort.Strings(ss)
 			for i := range ss {
 				s.E[i].V = ss[i]
+			}
+		}
+		return nil
+	case "sort.Ints":
+		if s, ok := args[0].(*SliceV); ok {
+			vals := make([]int, len(s.E))
+			for i, c := range s.E {
+				n, _ := c.V.(int64)
+				vals[i] = int(n)
+			}
+			sort.Ints(vals)
+			for i := range vals {
+				s.E[i].V = int64(vals[i])
 			}
 		}
 		return nil
